@@ -9,6 +9,7 @@ import (
 	"io"
 	"net"
 	"os"
+	"strings"
 	"syscall"
 	"time"
 
@@ -48,6 +49,9 @@ type StreamScenario struct {
 	// UpgradeDeadlineUs > 0 (client side): the Upgrade exchange runs under a
 	// context with this deadline; the operations afterwards use their own contexts.
 	UpgradeDeadlineUs int `json:"upgrade_deadline_us,omitempty"`
+	// Duplex: the write operations run in a second task, concurrently with the
+	// reads (ctxio allows a Write concurrent with a Read / ReadBytes).
+	Duplex bool `json:"duplex,omitempty"`
 
 	cancelServe func()
 }
@@ -125,7 +129,25 @@ func errClass(err error) string {
 // runOps performs the operations on rw. serveCancel cancels the serving context (handler side).
 func (s *StreamScenario) runOps(rw varlink.ReadWriterContext, base context.Context, serveCancel func(), conn *varlink.Connection) {
 	var recv func(context.Context, interface{}) (uint64, error)
+	if s.Duplex {
+		sim.Go("duplex-writer", func() {
+			for i, op := range s.Ops {
+				if op.Kind != "write" {
+					continue
+				}
+				if op.PauseUs > 0 {
+					sim.Sleep(time.Duration(op.PauseUs) * time.Microsecond)
+				}
+				sim.Rec("op.start", sp(i))
+				n, err := rw.Write(base, op.Data)
+				sim.Rec("op.done", mustJSON(opDone{I: i, Err: errClass(err), N: n}))
+			}
+		})
+	}
 	for i, op := range s.Ops {
+		if s.Duplex && op.Kind == "write" {
+			continue
+		}
 		if op.PauseUs > 0 {
 			sim.Sleep(time.Duration(op.PauseUs) * time.Microsecond)
 		}
@@ -587,7 +609,8 @@ func (s *StreamScenario) Check(k *sim.Kernel) []sim.Violation {
 			break
 		}
 		if op.Ctx.Mode == "" {
-			if o.done && !api && o.res.Err != "nil" && o.res.Err != "eof" && o.res.Err != "closed" && !prevServeCancel(s.Ops, i) && !(s.PeerEnd != "" && o.doneSeq > 0) {
+			anyServeCancel := s.Duplex && prevServeCancel(s.Ops, len(s.Ops))
+			if o.done && !api && o.res.Err != "nil" && o.res.Err != "eof" && o.res.Err != "closed" && o.res.Err != "reset" && o.res.Err != "epipe" && !prevServeCancel(s.Ops, i) && !anyServeCancel && !(s.PeerEnd != "" && o.doneSeq > 0) {
 				out = append(out, vio("live-context", "live-op-failed "+op.Kind+" "+classOnly(o.res.Err), "op %d (%s) had a live context but failed with %q", i, op.Kind, o.res.Err))
 			}
 			continue
@@ -610,7 +633,7 @@ func (s *StreamScenario) Check(k *sim.Kernel) []sim.Violation {
 		}
 		switch o.res.Err {
 		case "nil", "canceled", "deadline", "timeout":
-		case "eof", "closed":
+		case "eof", "closed", "reset", "epipe":
 			if op.Ctx.Mode != "servecancel" && s.PeerEnd == "" {
 				out = append(out, vio("cancellation", "wrong-error "+op.Kind, "op %d (%s, context %s) returned %q instead of a context or timeout error", i, op.Kind, op.Ctx.Mode, o.res.Err))
 			}
@@ -622,9 +645,18 @@ func (s *StreamScenario) Check(k *sim.Kernel) []sim.Violation {
 		}
 	}
 	// ---- nothing left behind
+	duplexID := "no-such-task"
+	if s.Duplex {
+		// helpers of a write that is still blocked (peer not reading) belong to a live operation
+		for _, ti := range k.LiveTasks() {
+			if ti.Label == "duplex-writer" {
+				duplexID = ti.ID + "."
+			}
+		}
+	}
 	if quiet && consumerDone && consumerTask != "" {
 		for _, ti := range k.LiveTasks() {
-			if len(ti.ID) > len(consumerTask) && ti.ID[:len(consumerTask)+1] == consumerTask+"." && ti.Label != "canceller" {
+			if len(ti.ID) > len(consumerTask) && ti.ID[:len(consumerTask)+1] == consumerTask+"." && ti.Label != "canceller" && ti.Label != "duplex-writer" && !strings.HasPrefix(ti.ID, duplexID) {
 				out = append(out, vio("cleanup", "helper-left-behind "+ti.Label, "all operations have returned but task %s (%s) started by one of them is still alive at quiescence (blocked: %q)", ti.ID, ti.Label, ti.Blocked))
 				break
 			}
@@ -928,10 +960,20 @@ func genC18(seed uint64, tier string) Scenario {
 		s.PeerEnd = g.Pick("close", "close", "abort")
 	}
 	// some writes in between: the two directions are independent
-	if g.Pct(25) {
-		i := g.IntN(len(s.Ops) + 1)
-		w := StreamOp{Kind: "write", Data: []byte(g.BigString(1 + g.IntN(200)))}
-		s.Ops = append(s.Ops[:i], append([]StreamOp{w}, s.Ops[i:]...)...)
+	if g.Pct(35) {
+		for n := 1 + g.IntN(3); n > 0; n-- {
+			i := g.IntN(len(s.Ops) + 1)
+			w := StreamOp{Kind: "write", Data: []byte(g.BigString(1 + g.IntN(200))), PauseUs: g.IntN(400)}
+			s.Ops = append(s.Ops[:i], append([]StreamOp{w}, s.Ops[i:]...)...)
+		}
+		s.Duplex = g.Pct(60)
+	}
+	// a cancelled read now and then: what comes after it is still the stream
+	if g.Pct(10) {
+		i := g.IntN(len(s.Ops))
+		if s.Ops[i].Kind != "write" {
+			s.Ops[i].Ctx = CtxSpec{Mode: "cancel", Us: g.IntN(1500)}
+		}
 	}
 	return s
 }
@@ -1007,7 +1049,15 @@ func genC17(seed uint64, tier string) Scenario {
 			break
 		}
 	}
-	if s.Side == "client" && g.Pct(30) {
+	if writes && g.Pct(30) {
+		// reads and writes from two tasks at once; the concurrent writes use the live context
+		s.Duplex = true
+		for i := range s.Ops {
+			if s.Ops[i].Kind == "write" {
+				s.Ops[i].Ctx = CtxSpec{}
+			}
+		}
+	} else if s.Side == "client" && g.Pct(30) {
 		// the client API proper: Send, the receive function, Call
 		for i := range s.Ops {
 			switch s.Ops[i].Kind {
